@@ -153,6 +153,18 @@ CHECKS = {
    note="Deviation bound 2/3 and seeded samples; message formats from a fixed family (printf equivalence is C14); retained set lower bound only (exact eviction is C11); output of damaged files unconstrained; sanitizers, guard tail and the h_bbfile.c projection are trusted.",
    technique="TLA+ model checking (TLC) + TLC-enumerated abstract file cases concretised and executed on the C code + TLC trace validation + sanitizer / guard-page monitor",
    design_ref="DESIGN.md section 4, C15"),
+ "C16": dict(
+   text="spec/LogThread.tla (explicit program counters, one action per hook point of lib/log_thread.c): TLC explores all interleavings of the "
+        "application thread and the logging thread and all orders of init, set-threaded, start, enable/disable/reconfigure/close, log, fini and "
+        "re-init (3-4 messages, backlog limit 2) against: written exactly once, in order, everything delivered when fini returns except what was "
+        "dropped over the limit; dropped count reported; lock live whenever held; target enabled while the worker is in its logger; accounting "
+        "consistent; every call returns (liveness under weak fairness). Binding: the hook points are yield points of a deterministic scheduler; an edge "
+        "cover of the model's state graph (thorough: every edge) and random walks of larger models are replayed step by step on the real threads, and TLC "
+        "validates semaphore value, accounting, queue length, dropped count, lock state and writes after each step (LogThreadTrace.tla); free-running "
+        "programs at the real 512000-byte limit are validated against a call-level spec and run under ThreadSanitizer.",
+   note="One producer/controller thread; Log only when the target is enabled, threaded and the thread started; sequentially consistent interleavings at hook granularity; the backlog limit is scaled to a few records in controlled runs; thread-start failures not generated.",
+   technique="TLA+ model checking (TLC, safety + liveness, all interleavings) + edge-cover schedules replayed on the real threads via hook points + TLC trace validation + TSan free runs",
+   design_ref="DESIGN.md section 4, C16"),
  "C17": dict(
    text="spec/Map.tla specifies the three map implementations as a dictionary with map-wide, per-key, recursive-prefix and "
         "value-release notifiers (per-implementation profile as a constant); TLC checks its invariants exhaustively for bounded "
@@ -213,4 +225,4 @@ def manifest():
     }
 
 NOT_APPLICABLE = {}
-HOOK_COMMITS = ["6403eeb", "060055a", "1defb0d", "133ca4e"]
+HOOK_COMMITS = ["6403eeb", "060055a", "1defb0d", "133ca4e", "61475be"]
